@@ -25,6 +25,7 @@ type vfC06Case struct {
 	N         int
 	Script    []int
 	UpdateAt  int // DTLS 1.3: UpdateKeys (sender) after this many writes; <=0 none
+	UpdateN   int // number of consecutive key updates at that point (0 = 1)
 	ScriptTag string
 }
 
@@ -97,16 +98,18 @@ func vfC06Run(t *testing.T, res *vfResult, c vfC06Case) {
 	recIdx := make([]int, c.N) // index into held
 	for i := 0; i < c.N; i++ {
 		if c.UpdateAt > 0 && i == c.UpdateAt {
-			holding = false
-			ctx, cancel := context.WithTimeout(context.Background(), 30*time.Second)
-			uerr := sender.Conn.UpdateKeys(ctx, KeyUpdateOptions{})
-			cancel()
-			synctest.Wait()
-			holding = true
-			if uerr != nil {
-				res.Count("keyupdate_failed", 1)
-			} else {
-				res.Count("keyupdates", 1)
+			for u := 0; u < max(1, c.UpdateN); u++ {
+				holding = false
+				ctx, cancel := context.WithTimeout(context.Background(), 30*time.Second)
+				uerr := sender.Conn.UpdateKeys(ctx, KeyUpdateOptions{})
+				cancel()
+				synctest.Wait()
+				holding = true
+				if uerr != nil {
+					res.Count("keyupdate_failed", 1)
+				} else {
+					res.Count("keyupdates", 1)
+				}
 			}
 		}
 		payloads[i] = []byte(fmt.Sprintf("c06-%s-%04d-%s", vfShortHash(c.ID()), i, strings.Repeat("x", i%7)))
@@ -316,6 +319,18 @@ func TestVF_C06(t *testing.T) {
 					s = append(s, i, i)
 				}
 				cases = append(cases, vfC06Case{Name: v.Name, Cfg: v.Cfg, W: 64, N: 10, Script: s, UpdateAt: at, ScriptTag: fmt.Sprintf("keyupdate@%d-old-new-old", at)})
+				// four (five, eight) updates in a row: the wire carries only the two low bits of the epoch, so the old
+				// and the new epoch look alike on the wire; then the old epoch's late records are replayed
+				for _, nu := range []int{4, 5, 8} {
+					s = nil
+					for i := 0; i < 25; i++ {
+						s = append(s, i)
+					}
+					for i := 8; i < 20; i++ {
+						s = append(s, i)
+					}
+					cases = append(cases, vfC06Case{Name: v.Name, Cfg: v.Cfg, W: 64, N: 25, Script: s, UpdateAt: 20, UpdateN: nu, ScriptTag: fmt.Sprintf("keyupdate-x%d@20-replay-old-epoch", nu)})
+				}
 			}
 		}
 		// PRNG long scripts
